@@ -65,7 +65,7 @@ from GTC.named_tuples import (
     Influence,
     Component                   
 )
-from GTC.vector import extend_vector
+from GTC.vector import extend_vector, merge_vectors
 
 from GTC import (
     is_sequence,
@@ -596,11 +596,14 @@ def components(y,**kwargs):
         if influences is None and not intermediate:
             
             # Ensure that the influence vectors have the same keys
-            re = extend_vector(y.real._u_components, y.real._d_components)
+            # The independent and dependent components have disjoint keys:
+            # merge them (keeping both sets of values), then add the keys
+            # of the other part with zeros
+            re = merge_vectors(y.real._u_components, y.real._d_components)
             re = extend_vector(re,y.imag._u_components)
             re = extend_vector(re,y.imag._d_components)
     
-            im = extend_vector(y.imag._u_components, y.imag._d_components)
+            im = merge_vectors(y.imag._u_components, y.imag._d_components)
             im = extend_vector(im,y.real._u_components)
             im = extend_vector(im,y.real._d_components)
 
@@ -880,11 +883,14 @@ def budget(y,**kwargs):
         if influences is None and not intermediate:
             
             # Ensure that the influence vectors have the same keys
-            re = extend_vector(y.real._u_components, y.real._d_components)
+            # The independent and dependent components have disjoint keys:
+            # merge them (keeping both sets of values), then add the keys
+            # of the other part with zeros
+            re = merge_vectors(y.real._u_components, y.real._d_components)
             re = extend_vector(re,y.imag._u_components)
             re = extend_vector(re,y.imag._d_components)
     
-            im = extend_vector(y.imag._u_components, y.imag._d_components)
+            im = merge_vectors(y.imag._u_components, y.imag._d_components)
             im = extend_vector(im,y.real._u_components)
             im = extend_vector(im,y.real._d_components)
 
